@@ -26,7 +26,7 @@ def run(chk):
         chk.note(f'symbolic rules not evaluated ({e.rule} at {e.anchor}: {e.why[:200]}); the verdict rests on the bounded exploration only')
     chk.explanation = ('Explicit-state exploration of the folded BiddingPhase (numpy vector on a 1-d array model) against an oracle of the Laws: every '
                        'call sequence over an alphabet of all call kinds (pass, double, redouble, cheapest / denomination-changing / same-denomination / '
-                       'top bids, insufficient bids) to depth 6 (8 thorough) from dealer N, depth 4-5 from the other dealers and vulnerabilities, plus '
+                       'top bids, insufficient bids) to depth 6 (7 thorough) from dealer N, depth 4-5 from the other dealers and vulnerabilities, plus '
                        'scripted long auctions (the 319-call maximum); at every prefix turn, vector of the 38 calls, histories, end, contract and declarer '
                        'are compared, refused calls and calls after the end must change nothing.  ' + (chk.explanation or
                        'The symbolic path-summary rules could not bind the state representation of this tree and were not evaluated.'))
